@@ -10,6 +10,9 @@ func EvaluateInsert(q sql.InsertStatement, rm RelationManager) (int, error) {
 	defer rm.EndTxn()
 
 	tbl := q.TableName
+	if storage.IsCatalogTable(tbl) {
+		return 0, storage.ErrCatalogReadOnly
+	}
 	cols := q.InsertColumnsAndSource.InsertColumnList.ColumnNames
 	vals := q.InsertColumnsAndSource.QueryExpression.(sql.TableValueConstructor).TableValueConstructorList
 
